@@ -1,7 +1,8 @@
-/- placeholder driver for C08: replaced when the model is built -/
-import AcnModel.Wire
-open Lean Acn.Wire
+/-
+  Driver for C08: same protocol as C07 (`AcnModel/WireSorted.lean`); the C08 harness reads the
+  intermediate states (sorted order, per-session bounds, round-robin trace and level lists).
+-/
+import AcnModel.WireSorted
+open Acn.Wire
 
-def handle (_ : Json) : Except String Json := throw "driver for C08 not built yet"
-
-def main : IO Unit := runDriver handle
+def main : IO Unit := runDriver Acn.WireSorted.handle
